@@ -1,6 +1,7 @@
 (* C03 - the objective never increases from one accepted iterate to the next.
    Restates Proofs/DriverValuesRun.values_run (driver model: coq/Model/Driver.v). *)
 From Coq Require Import List ZArith Bool String Floats.PrimFloat.
+From LBFGSB Require Generated.LsBook Proofs.DriverSplit.
 From LBFGSB Require Import Base.Res Base.Hoare Base.FloatOrd Model.SF Model.FloatVec Model.Driver
   Proofs.SFProofs Proofs.DriverReport Proofs.DriverValues Proofs.DriverValuesRun.
 Import ListNotations.
@@ -51,6 +52,21 @@ Theorem C03_accepted_step_is_downhill : forall U K c,
 Proof.
   intros U K c Hu xk f0 g0 d nit cap t a t1 tr HI H.
   destruct (val_line_search U K c Hu xk f0 g0 d nit cap t HI _ _ H) as (_ & _ & _ & _ & Hs). exact (Hs a eq_refl).
+Qed.
+
+(* TRANSLATION TIE: the rule that decides which trial is accepted - `best_f = f0` at the start, `if f_m1 < best_f: best_f = f_m1;
+   best_stp = steplength` after every evaluation, `steplength = best_stp` at the end - is recognised in the source of line_search on
+   every run (Generated/LsBook.v) and is the model's: monotonicity rests on it (the pinned tree compared with the previous trial
+   only, defect D3). *)
+Theorem C03_best_trial_from_source : forall (U : user) (K : kern) (c : cfg) k xk d par s stp,
+  dcs K par (l_hist s ++ [(l_stp s, l_f s, l_dphi s)]) = (stp, TFG) ->
+  ls_loop U K c (S k) xk d par s =
+  bind (sf_fun_and_grad U (vclip (vaxpy xk stp d) (lb c) (ub c)) (l_sf s))
+       (fun '(f, g, t1) => let b := LBFGSB.Generated.LsBook.best_update f stp (l_best s, l_bestf s) in
+          ls_loop U K c k xk d par (mklss stp f (vdot K g d) (l_hist s ++ [(l_stp s, l_f s, l_dphi s)]) (fst b) (snd b) TFG stp t1)).
+Proof.
+  intros U K c k xk d par s stp H. cbn [ls_loop]. rewrite H. apply DriverSplit.bind_ext. intros [[f g] t1].
+  unfold LBFGSB.Generated.LsBook.best_update. cbn [snd fst]. destruct (ltb f (l_bestf s)); reflexivity.
 Qed.
 
 Print Assumptions C03_monotone.
